@@ -85,12 +85,13 @@ struct TopoSpec {
   std::string fsroot, cpuid, components, snapname;
   std::vector<std::pair<std::string, std::string>> envs;
   bool is_snapshot() const { return !fsroot.empty() || !cpuid.empty(); }
+  bool is_native = false;   // the live machine: no source is configured at all
   unsigned long flags = 0;
   int filters[HWLOC_OBJ_TYPE_MAX];   // -1 = leave default
   bool all_filter_set = false; int all_filter = 0;
   TopoSpec() { for (auto &f : filters) f = -1; }
   std::string text() const {
-    std::string s = is_snapshot() ? "snapshot=" + snapname + " HWLOC_COMPONENTS=" + components : is_xml ? "xml=" + xmlpath.substr(xmlpath.rfind('/') + 1) : "synthetic=\"" + synth + "\"";
+    std::string s = is_native ? std::string("this-machine") : is_snapshot() ? "snapshot=" + snapname + " HWLOC_COMPONENTS=" + components : is_xml ? "xml=" + xmlpath.substr(xmlpath.rfind('/') + 1) : "synthetic=\"" + synth + "\"";
     for (auto &e : envs) s += " " + e.first + "=" + e.second;
     s += strf(" flags=0x%lx", flags);
     if (all_filter_set) s += strf(" allfilter=%d", all_filter);
@@ -178,7 +179,9 @@ static int apply_spec_and_load(Case &c, hwloc_topology_t t, const TopoSpec &sp) 
       c.cls("filter:illegal-rejected");
     }
   }
-  if (sp.is_snapshot()) {
+  if (sp.is_native) {
+    unsetenv("HWLOC_FSROOT"); unsetenv("HWLOC_CPUID_PATH"); unsetenv("HWLOC_COMPONENTS"); unsetenv("HWLOC_XMLFILE"); unsetenv("HWLOC_SYNTHETIC");
+  } else if (sp.is_snapshot()) {
     if (!sp.fsroot.empty()) setenv("HWLOC_FSROOT", sp.fsroot.c_str(), 1); else unsetenv("HWLOC_FSROOT");
     if (!sp.cpuid.empty()) setenv("HWLOC_CPUID_PATH", sp.cpuid.c_str(), 1); else unsetenv("HWLOC_CPUID_PATH");
     setenv("HWLOC_COMPONENTS", sp.components.c_str(), 1);
